@@ -982,6 +982,70 @@ template <class K> struct World {
             h.bytes(perm, sizeof(int) * n);
             rt_caller_free(perm); rt_caller_free(u); rt_caller_free(v);
         }
+        if ((sel & 64) && s.storage == 0) { // sparse matrix-vector product called directly: general alpha / beta, strided and reversed vectors
+            Rng g(o.rhs_seed ^ 0x6464);
+            static const char tc[3] = {'N', 'T', 'C'}; char tr[2] = {tc[g.below(3)], 0}; bool notran = tr[0] == 'N', conj = tr[0] == 'C' && K::cplx;
+            static const int incs[6] = {1, 2, 3, -1, -2, 1};
+            int incx = notran ? incs[g.below(6)] : 1, incy = notran ? 1 : incs[g.below(6)]; // the other combinations are documented as not implemented
+            int lenx = notran ? n : m, leny = notran ? m : n; int ax = std::abs(incx), ay = std::abs(incy);
+            auto coef = [&](int w) { return w == 0 ? ScalarOps<S>::make(0, 0) : w == 1 ? ScalarOps<S>::make(1, 0) : w == 2 ? ScalarOps<S>::make(-1, 0) : ScalarOps<S>::make(g.sym(), K::cplx ? g.sym() : 0); };
+            S alpha = coef((int)g.below(5)), beta = coef((int)g.below(5));
+            size_t nx = (size_t)(lenx - 1) * ax + 1, ny = (size_t)(leny - 1) * ay + 1;
+            S *x = cmalloc<S>(nx), *y = cmalloc<S>(ny);
+            for (size_t k = 0; k < nx; k++) x[k] = ScalarOps<S>::make(g.sym(), K::cplx ? g.sym() : 0);
+            for (size_t k = 0; k < ny; k++) y[k] = ScalarOps<S>::make(g.sym(), K::cplx ? g.sym() : 0);
+            std::vector<S> x0(x, x + nx), y0(y, y + ny);
+            K::sp_gemv(tr, alpha, &s.A, x, incx, beta, y, incy);
+            auto at = [](int i, int inc, int len) { return inc > 0 ? (size_t)i * inc : (size_t)(len - 1 - i) * (size_t)(-inc); };
+            cx al((ld)ScalarOps<S>::re(alpha), (ld)ScalarOps<S>::im(alpha)), be((ld)ScalarOps<S>::re(beta), (ld)ScalarOps<S>::im(beta));
+            std::vector<cx> acc(leny, cx(0)); std::vector<ld> mag(leny, 0);
+            const S *av = (const S *)((NCformat *)s.A.Store)->nzval; const int_t *ai = ((NCformat *)s.A.Store)->rowind, *ap = ((NCformat *)s.A.Store)->colptr;
+            for (int c = 0; c < n; c++) for (long k = ap[c]; k < ap[c + 1]; k++) {
+                int rr = (int)ai[k]; cx a((ld)ScalarOps<S>::re(av[k]), (ld)ScalarOps<S>::im(av[k])); if (conj) a = std::conj(a);
+                int xi = notran ? c : rr, yi = notran ? rr : c; S xv = x0[at(xi, incx, lenx)]; cx xc((ld)ScalarOps<S>::re(xv), (ld)ScalarOps<S>::im(xv));
+                acc[yi] += a * xc; mag[yi] += std::abs(a) * std::abs(xc);
+            }
+            double eps = sizeof(R) == 4 ? 1.2e-7 : 2.3e-16; bool ok = true;
+            if (memcmp(x, x0.data(), sizeof(S) * nx)) ok = false; // x is input only
+            for (size_t k = 0; k < ny && ok; k++) { // positions between the strided elements stay untouched
+                bool used = (k % ay) == 0; if (!used && !same(y[k], y0[k])) ok = false; }
+            for (int i = 0; i < leny && ok; i++) { size_t p = at(i, incy, leny); cx yo((ld)ScalarOps<S>::re(y0[p]), (ld)ScalarOps<S>::im(y0[p])), got((ld)ScalarOps<S>::re(y[p]), (ld)ScalarOps<S>::im(y[p]));
+                cx want = al * acc[i] + be * yo; ld bound = 8 * (std::max(m, n) + 4) * (ld)eps * (std::abs(al) * mag[i] + std::abs(be) * std::abs(yo)) + 1e-300L;
+                if (!(std::abs(got - want) <= bound)) ok = false; }
+            if (!ok) viol(r, "util", std::string("sp_gemv(") + tr + ", incx=" + std::to_string(incx) + ", incy=" + std::to_string(incy) + "): result differs from the reference product, or x / the gaps of y were written");
+            h.bytes(y, sizeof(S) * ny);
+            rt_caller_free(x); rt_caller_free(y);
+        }
+        if ((sel & 128) && s.haveLU && s.lu_valid && !s.lu_ilu && !s.lu_nostruct && m == n && n <= cfg.dense_limit && s.last_cls == XC_OK) {
+            // triangular solves with the factors called directly, every combination the routine documents
+            Rng g(o.rhs_seed ^ 0x8080);
+            std::vector<cx> Ld, Ud; dense_LU<K>(&s.L, &s.U, n, n, Ld, Ud);
+            bool ovf = overflow_plausible<K>(Ld, Ud, std::vector<cx>());
+            static const char *const combos[6][3] = {{"L", "N", "U"}, {"U", "N", "N"}, {"L", "T", "U"}, {"U", "T", "N"}, {"L", "C", "U"}, {"U", "C", "N"}};
+            SuperLUStat_t st; StatInit(&st);
+            for (int q = 0; q < 6; q++) {
+                if (!((o.rhs_seed >> (30 + q)) & 1) && q != (int)(o.rhs_seed % 6)) continue;
+                bool lower = combos[q][0][0] == 'L'; char tch = combos[q][1][0]; bool tr = tch != 'N', cj = tch == 'C' && K::cplx;
+                S *x = cmalloc<S>(n); for (int i = 0; i < n; i++) x[i] = ScalarOps<S>::make(g.sym(), K::cplx ? g.sym() : 0);
+                std::vector<S> b0(x, x + n); int info = -777;
+                char a0[2] = {combos[q][0][0], 0}, a1[2] = {tch, 0}, a2[2] = {combos[q][2][0], 0};
+                K::sp_trsv(a0, a1, a2, &s.L, &s.U, x, &st, &info);
+                if (info != 0) { viol(r, "util", std::string("sp_trsv(") + a0 + a1 + a2 + ") rejected valid arguments"); rt_caller_free(x); continue; }
+                bool fin = true; for (int i = 0; i < n; i++) if (!std::isfinite((double)ScalarOps<S>::re(x[i])) || !std::isfinite((double)ScalarOps<S>::im(x[i]))) fin = false;
+                if (fin && !ovf) {
+                    const std::vector<cx> &T = lower ? Ld : Ud; double eps = sizeof(R) == 4 ? 1.2e-7 : 2.3e-16; bool ok = true;
+                    for (int i = 0; i < n && ok; i++) { cx sum(0); ld mg = 0;
+                        for (int j = 0; j < n; j++) { cx t = tr ? T[(size_t)j + (size_t)i * n] : T[(size_t)i + (size_t)j * n]; if (t == cx(0)) continue; if (cj) t = std::conj(t);
+                            cx xc((ld)ScalarOps<S>::re(x[j]), (ld)ScalarOps<S>::im(x[j])); sum += t * xc; mg += std::abs(t) * std::abs(xc); }
+                        cx bc((ld)ScalarOps<S>::re(b0[i]), (ld)ScalarOps<S>::im(b0[i]));
+                        if (!(std::abs(sum - bc) <= (K::cplx ? 32 : 8) * (n + 4) * (ld)eps * (mg + std::abs(bc)) + 1e-300L)) ok = false; }
+                    if (!ok) viol(r, "util", std::string("sp_trsv(") + a0 + a1 + a2 + "): the returned vector does not solve the triangular system");
+                }
+                h.bytes(x, sizeof(S) * n);
+                rt_caller_free(x);
+            }
+            StatFree(&st);
+        }
         rt_op_end(ctx);
         r.steps = ctx->steps - steps0; r.cls = XC_OK;
         if (cfg.capture) { r.snap.val("util", (long)sel); r.snap.val("perm", (long)h.h); snap_A(s, r.snap, "post"); }
